@@ -191,6 +191,18 @@ class Prop:
                 yield dict(kind="hist", univ=desc["univ"], ops=desc["setup"] + [alt])
             return
         if desc["kind"] == "probe":
+            # one probe at a time (the names of the failing probes), then the same on the smallest two-tree setup
+            if desc.get("only") and len(desc["only"]) == 1:
+                if desc["setup"] != _W_SETUP and not desc.get("typed"):
+                    yield dict(kind="probe", univ=_W_UNIV, setup=_W_SETUP, typed=False, only=desc["only"])
+                return
+            pf, _ = M.run_probes(desc["univ"], desc["setup"], only=desc.get("only"))
+            rf, _ = M.run_raw_invalid(desc["univ"], desc["setup"], desc.get("typed", False), only=desc.get("only"))
+            seen = []
+            for name, k, msg in pf + rf:
+                if name not in seen:
+                    seen.append(name)
+                    yield dict(kind="probe", univ=desc["univ"], setup=desc["setup"], typed=desc.get("typed", False), only=[name])
             return
         for h in mut.shrink_candidates(dict(univ=desc["univ"], ops=desc["ops"])):
             yield dict(kind="hist", univ=h["univ"], ops=h["ops"])
@@ -217,7 +229,7 @@ class Prop:
             r = M.replay13(dict(univ=desc["univ"], ops=desc["setup"]))
             term, obs = mut.coq_case(r), r.obs
             only = desc.get("only")
-            pf, pst = ([], dict(probes=0, fault_runs=0, readonly=0)) if only else M.run_probes(desc["univ"], desc["setup"])
+            pf, pst = M.run_probes(desc["univ"], desc["setup"], only=only)
             rf, rst = M.run_raw_invalid(desc["univ"], desc["setup"], desc.get("typed", False), only=only)
             pf = pf + rf
             stats = dict(kind="probe set", label=desc.get("label", ""), probes=pst["probes"], fault_runs=pst["fault_runs"] // 50 * 50,
